@@ -44,7 +44,7 @@ def run_gosym(group, tier, extra_overlays):
     opts = dict(group.get("opts", {}))
     opts.update(group.get(tier, {}))
     cmd = [GOSYM, "-repo", REPO, "-harness", HARNESS, "-pkgs", group["pkgs"], "-fn", ",".join(group["fns"]), "-out", out,
-           "-j", str(opts.get("j", 8)), "-feas-ms", str(opts.get("feas_ms", 5000)),
+           "-j", str(opts.get("j", 3)), "-w", str(opts.get("w", 6)), "-feas-ms", str(opts.get("feas_ms", 8000)),
            "-assert-ms", str(opts.get("assert_ms", 60000 if tier == "quick" else 300000)),
            "-max-paths", str(opts.get("max_paths", 20000))]
     if opts.get("map_orders"):
@@ -229,6 +229,7 @@ def main():
     queries = 0
     bounds = {}
     replayed = 0
+    tried = {}
     for r in results:
         states += sum(r["paths"].values())
         transitions += r["ssa_instructions"]
@@ -269,24 +270,32 @@ def main():
                 inconclusive += 1
                 print("INCONCLUSIVE %s@%s solver verdict unknown" % (o["ID"], r["harness"]))
                 continue
-            # violated: replay once per obligation id per harness
-            if (r["harness"], o["ID"]) in [(u["harness"], u["obligation"]) for u in violations_new + unconfirmed] or (r["harness"], o["ID"]) in known_hits:
+            # violated: replay instances of this obligation until one confirms (at most 4 per obligation)
+            key = (r["harness"], o["ID"])
+            if key in known_hits or any((v["harness"], v["obligation"]) == key for v in violations_new):
+                continue
+            tried[key] = tried.get(key, 0) + 1
+            if tried[key] > 4:
                 continue
             sc = o["Scenario"]
             sc["pkg"] = r["pkg"]
             path = os.path.join(evdir, "replay", "%s-%s.json" % (prop, re.sub(r"[^A-Za-z0-9_.-]", "_", o["ID"])))
+            if tried[key] > 1:
+                path = path[:-5] + ".try%d.json" % tried[key]
             rr = replay(r["pkg"], sc, path, extra)
             replayed += 1
             confirmed = o["ID"] in (rr.get("failed_asserts") or [])
             entry = {"harness": r["harness"], "obligation": o["ID"], "replay": path, "replay_result": rr}
             if confirmed:
+                unconfirmed[:] = [u for u in unconfirmed if (u["harness"], u["obligation"]) != key]
                 kn = [k for k in known if k["property"] == prop and k["obligation"] == o["ID"]]
                 if kn:
-                    known_hits[(r["harness"], o["ID"])] = kn[0]
+                    known_hits[key] = kn[0]
                 else:
                     violations_new.append(entry)
             else:
-                unconfirmed.append(entry)
+                if not any((u["harness"], u["obligation"]) == key for u in unconfirmed):
+                    unconfirmed.append(entry)
         # cover points
     missing_covers = [c for c in spec.get("covers", []) if covers.get(c, 0) == 0]
 
